@@ -28,9 +28,9 @@ import pyglove as pg
 from pyvc.bounded import Recorder, rng
 
 from bounded.c11_enumeration import (
-    C, CH, CU, FL, ONE, SP, S2, S22, S3, SF, SM, SN, SNM, PRELUDE, accepts,
-    LOCS, build, count_members, depth_of, dsrc, flat, gen_dps, handpicked_roots, has_kind, is_finite, leaf, members,
-    mk, shape, src, tkey, wit)
+    C, CH, CU, FL, LOCS, ONE, SP, S2, S22, S3, SF, SM, SN, accepts, build,
+    count_members, depth_of, dsrc, flat, gen_dps, handpicked_roots, is_finite,
+    leaf, members, mk, shape, src, tkey, wit)
 
 PROP = 'C12'
 
@@ -212,7 +212,7 @@ def records(m, spec, tree, dna=None):
   return out, containers
 
 
-def fmt_value(rec, value_type, use_real):
+def fmt_value(rec, value_type):
   """Expected dict value of an active record under value_type."""
   m, node = rec.m, rec.node
   if value_type == 'dna':
@@ -260,23 +260,21 @@ def expected_dict(recs, key_type, value_type, multi_key, include_inactive):
     return dp.id.path
 
   out = {}
-  done_parents = set()
   for rec in recs:
     if not rec.active and not include_inactive:
       continue
-    val = fmt_value(rec, value_type, False) if rec.active else None
+    val = fmt_value(rec, value_type) if rec.active else None
     if rec.parent is None:
       out[key(rec.dp, rec.name)] = val
       continue
     named = key_type == 'name_or_id' and rec.name is not None
     # the k subchoices of one multi-choice
-    if (multi_key in ('parent', 'both') or named) and (
-        id(rec.parent), rec.index) not in done_parents:
+    if multi_key in ('parent', 'both') or named:
       if rec.index == 0:
         group = [x for x in recs if x.parent is rec.parent]
         if group[0].active:
           out[key(rec.parent, rec.name)] = [
-              fmt_value(x, value_type, False) for x in group]
+              fmt_value(x, value_type) for x in group]
         elif include_inactive:
           out[key(rec.parent, rec.name)] = None
     if multi_key in ('subchoice', 'both') and not named:
@@ -376,7 +374,7 @@ def check_json(rec, m, spec, t, d):
                       'import json\n' + base + f'x = {text}.use_spec(spec)\n')
 
 
-def check_alignment(rec, m, spec, t, x, source, make_x, recs=None):
+def check_alignment(rec, m, spec, t, x, source, make_x):
   """Every node of x (tree t) is bound to the decision point of its position
   and its dict views are those of a DNA rebuilt from its numbers."""
   key = (src(m), t)
